@@ -6,6 +6,7 @@
 set -u
 P="$(readlink -f "$1")"; shift
 MX=${MX:-/tmp/mx}
+SRC="${VERIF_SRC:-$(cd "$(dirname "$0")/.." && pwd)}"
 WT=$MX/repo; VC=$MX/verif
 mkdir -p $MX
 exec 9>$MX/lock; flock 9
@@ -13,7 +14,7 @@ if [ ! -d $WT ]; then git -C /repo worktree add --detach $WT HEAD -q || exit 9; 
 git -C $WT checkout -q --detach "$(git -C /repo rev-parse HEAD)" && git -C $WT checkout -q -- . && git -C $WT clean -fdq
 git -C $WT apply "$P" || { echo "patch does not apply"; exit 9; }
 mkdir -p $VC $MX/target-engine $MX/target-sdk
-rsync -a --delete --exclude 'target' --exclude 'target-*' --exclude logs --exclude evidence --exclude replays --exclude .git /verif/ $VC/
+rsync -a --delete --exclude 'target' --exclude 'target-*' --exclude logs --exclude evidence --exclude replays --exclude .git "$SRC"/ $VC/
 sed -i "s|/repo/|$WT/|g" $VC/engine/vcheck/Cargo.toml $VC/engine-sdk/sdkcheck/Cargo.toml
 sed -i "s|\"/repo/programs/whirlpool/src/lib.rs\"|\"$WT/programs/whirlpool/src/lib.rs\"|" $VC/engine/vcheck/src/catalog.rs $VC/engine/vcheck/src/ix/build.rs
 ln -sfn $MX/target-engine $VC/engine/target; ln -sfn $MX/target-sdk $VC/engine-sdk/target
